@@ -10,6 +10,7 @@ import (
 	"math/rand"
 	"strconv"
 	"strings"
+	"sync"
 	"sync/atomic"
 	"time"
 
@@ -99,6 +100,69 @@ type closerStream struct{ *sstream }
 
 func (c closerStream) Close() error { c.closes.Add(1); return nil }
 
+// cwStream is a body stream with a counting (non-idempotent) Close and a CloseWithError, which the
+// compressor goroutine calls as its very last action on the stream: that makes "the goroutine is done"
+// observable.  A gated stream blocks in Read until the gate is opened.
+type cwStream struct {
+	data   []byte
+	pos    int
+	gate   chan struct{}
+	closes atomic.Int32
+	cwes   atomic.Int32
+	done   chan struct{}
+	once   sync.Once
+}
+
+func (s *cwStream) Read(p []byte) (int, error) {
+	if s.gate != nil {
+		<-s.gate
+	}
+	if s.pos >= len(s.data) {
+		return 0, io.EOF
+	}
+	n := copy(p, s.data[s.pos:])
+	s.pos += n
+	return n, nil
+}
+func (s *cwStream) Close() error { s.closes.Add(1); return nil }
+func (s *cwStream) CloseWithError(error) error {
+	s.cwes.Add(1)
+	s.once.Do(func() { close(s.done) })
+	return nil
+}
+func (s *cwStream) waitDone() bool {
+	select {
+	case <-s.done:
+		return true
+	case <-time.After(5 * time.Second):
+		return false
+	}
+}
+
+var bigData []byte
+var bigOnce sync.Once
+
+func incompressible() []byte {
+	bigOnce.Do(func() {
+		bigData = make([]byte, 8<<20)
+		rand.New(rand.NewSource(99)).Read(bigData)
+	})
+	return bigData
+}
+
+func newCW(big, gated bool) *cwStream {
+	s := &cwStream{done: make(chan struct{})}
+	if big {
+		s.data = incompressible()
+	} else {
+		s.data = []byte("a small body that the compressor goroutine wants to read")
+	}
+	if gated {
+		s.gate = make(chan struct{})
+	}
+	return s
+}
+
 func newStream(data []byte, script []rdop, closer bool) (io.Reader, *sstream) {
 	s := &sstream{data: data, script: script}
 	if closer {
@@ -162,6 +226,10 @@ type desc struct {
 	Ops       []lifeop `json:"ops,omitempty"`
 	Early     bool     `json:"early,omitempty"`     // server case: the client goes away without reading
 	KeepAlive bool     `json:"keepalive,omitempty"` // server case: no Connection: close
+	Codec     string   `json:"codec,omitempty"`     // zlife: gzipbody | writegzip | writedeflate | server-gzip | server-deflate | server-br | server-zstd
+	Discard   string   `json:"discard,omitempty"`   // zlife: writefail | writeok | close | reset | setbody | release
+	GoFirst   bool     `json:"gofirst,omitempty"`   // zlife: let the compressor goroutine finish before the discard
+	Big       bool     `json:"big,omitempty"`       // zlife: 8 MiB incompressible stream (otherwise a small gated one)
 }
 
 // ---------------------------------------------------------------------------
@@ -802,6 +870,161 @@ func runLife(d desc) hlib.Case {
 	return c
 }
 
+// ---- a compressed stream dropped while / after its compressor goroutine runs ----------
+
+func runZLife(d desc) hlib.Case {
+	c := hlib.Case{Kind: "zlife-" + d.Codec, Size: 1}
+	c.Sig = fmt.Sprintf("zlife-%s-%s-gofirst%v-big%v", d.Codec, d.Discard, d.GoFirst, d.Big)
+	count := func(s *cwStream) string { return hlib.N(uint64(s.closes.Load())) }
+	if strings.HasPrefix(d.Codec, "server-") {
+		// a real server, CompressHandler around a handler that streams 8 MiB; the client leaves after 16 KiB
+		s := newCW(true, false)
+		h := fasthttp.CompressHandlerBrotliLevel(func(ctx *fasthttp.RequestCtx) { ctx.SetBodyStream(s, -1) },
+			fasthttp.CompressBrotliDefaultCompression, fasthttp.CompressDefaultCompression)
+		srv := &fasthttp.Server{Handler: h, Logger: nopLogger{}, WriteTimeout: 5 * time.Second}
+		ln := fasthttputil.NewInmemoryListener()
+		done := make(chan struct{})
+		go func() { srv.Serve(ln); close(done) }() //nolint:errcheck
+		conn, err := ln.Dial()
+		if err != nil {
+			panic(err)
+		}
+		conn.Write([]byte("GET / HTTP/1.1\r\nHost: h\r\nAccept-Encoding: " + strings.TrimPrefix(d.Codec, "server-") + "\r\n\r\n")) //nolint:errcheck
+		io.CopyN(io.Discard, conn, 16<<10)                                                                                         //nolint:errcheck
+		conn.Close()
+		ln.Close()
+		srv.Shutdown() //nolint:errcheck
+		<-done
+		finished := s.waitDone()
+		ops := []string{coqLop("LSetBodyStream", "true"), "LWrap", coqLop("LWrite", "FErr"), "LReset"}
+		if finished {
+			ops = append(ops, coqLop("LGoDone", "0%nat"))
+		}
+		c.Coq = hlib.App("CLifeEnd", "MResp", hlib.List(ops), hlib.List([]string{count(s)}))
+		return c
+	}
+	// a failing write needs a stream that keeps its goroutine busy (8 MiB, the pipe fills up); a complete
+	// write and "goroutine first" need one that can be read at once; the other discards use a gated one
+	switch d.Discard {
+	case "writefail":
+		d.Big, d.GoFirst = true, false
+	case "writeok":
+		d.Big = false
+	}
+	gated := !d.Big && !d.GoFirst && d.Discard != "writeok"
+	resp := fasthttp.AcquireResponse()
+	s := newCW(d.Big, gated)
+	resp.SetBodyStream(s, -1)
+	if d.Codec == "writegzip" || d.Codec == "writedeflate" {
+		// Response.WriteGzip / WriteDeflate: wrap and write in one call, into a target that fails after 16 KiB
+		budget := 16 << 10
+		if d.Discard == "writeok" {
+			budget = -1
+		}
+		t := &target{budget: budget}
+		bw := bufio.NewWriterSize(t, 4096)
+		var err error
+		if d.Codec == "writegzip" {
+			err = resp.WriteGzip(bw)
+		} else {
+			err = resp.WriteDeflate(bw)
+		}
+		if err == nil {
+			err = bw.Flush()
+		}
+		f := "FNone"
+		if err != nil {
+			f = "FErr"
+		}
+		if s.gate != nil {
+			close(s.gate)
+		}
+		finished := s.waitDone()
+		fasthttp.ReleaseResponse(resp)
+		ops := []string{coqLop("LSetBodyStream", "true"), "LWrap", coqLop("LWrite", f)}
+		if finished {
+			ops = append(ops, coqLop("LGoDone", "0%nat"))
+		}
+		ops = append(ops, "LReset")
+		c.Coq = hlib.App("CLifeEnd", "MResp", hlib.List(ops), hlib.List([]string{count(s)}))
+		c.Sig += "-" + f
+		return c
+	}
+	// gzipBody, then the discard, observed step by step
+	var steps []string
+	snap := func(lop string) {
+		steps = append(steps, hlib.Tuple(lop, hlib.Bool(resp.IsBodyStream()), hlib.List([]string{count(s)})))
+	}
+	snap(coqLop("LSetBodyStream", "true"))
+	fasthttp.VerifGzipBody(resp, fasthttp.CompressDefaultCompression)
+	if d.GoFirst {
+		// the small ungated stream is compressed at once; its goroutine closes it
+		if s.waitDone() {
+			snap("LWrap")
+			steps = steps[:len(steps)-1]
+			steps = append(steps, hlib.Tuple("LWrap", "true", hlib.List([]string{"0%N"})))
+			snap(coqLop("LGoDone", "0%nat"))
+		}
+	} else {
+		snap("LWrap")
+	}
+	released := false
+	switch d.Discard {
+	case "writefail", "writeok":
+		budget := 16 << 10
+		if d.Discard == "writeok" {
+			budget = -1
+			if s.gate != nil {
+				close(s.gate) // a complete write needs the stream's data
+				s.gate = nil
+			}
+		}
+		t := &target{budget: budget}
+		bw := bufio.NewWriterSize(t, 4096)
+		err := resp.Write(bw)
+		if err == nil {
+			err = bw.Flush()
+		}
+		if err != nil {
+			snap(coqLop("LWrite", "FErr"))
+		} else {
+			snap(coqLop("LWrite", "FNone"))
+		}
+	case "close":
+		resp.CloseBodyStream() //nolint:errcheck
+		snap("LCloseBodyStream")
+	case "reset":
+		resp.Reset()
+		snap("LReset")
+	case "setbody":
+		resp.SetBodyString("replaced")
+		snap("LSetBody")
+	case "release":
+		fasthttp.ReleaseResponse(resp)
+		released = true
+		steps = append(steps, hlib.Tuple("LReset", "false", hlib.List([]string{count(s)})))
+	}
+	if !d.GoFirst {
+		if s.gate != nil {
+			close(s.gate)
+		}
+		if s.waitDone() {
+			if released {
+				steps = append(steps, hlib.Tuple(coqLop("LGoDone", "0%nat"), "false", hlib.List([]string{count(s)})))
+			} else {
+				snap(coqLop("LGoDone", "0%nat"))
+			}
+		}
+	}
+	if !released {
+		resp.Reset()
+		snap("LReset")
+		fasthttp.ReleaseResponse(resp)
+	}
+	c.Coq = hlib.App("CLife", "MResp", hlib.List(steps))
+	return c
+}
+
 // ---- life cycle of a RequestCtx inside a running server ------------------------
 
 func runCtx(d desc) hlib.Case {
@@ -1124,8 +1347,18 @@ func gen(r *rand.Rand, i int) desc {
 			d.Flushes = append(d.Flushes, r.Intn(2) == 0)
 		}
 		return d
-	case x < 97:
+	case x < 94:
 		return desc{Op: "life", Mk: mk, Ops: genLifeOps(r, mk == "resp")}
+	case x < 97:
+		d := desc{Op: "zlife", Codec: hlib.Pick(r, []string{"gzipbody", "gzipbody", "writegzip", "writedeflate"}),
+			Discard: hlib.Pick(r, []string{"writefail", "writeok", "close", "reset", "setbody", "release"}), GoFirst: r.Intn(3) == 0, Big: r.Intn(6) == 0}
+		if d.Codec != "gzipbody" && d.Discard != "writeok" {
+			d.Discard = "writefail"
+		}
+		if d.Discard == "writeok" {
+			d.Big = false
+		}
+		return d
 	default:
 		n := 1 + r.Intn(2)
 		d := desc{Op: "ctx", Early: r.Intn(3) == 0, KeepAlive: r.Intn(3) == 0}
@@ -1234,6 +1467,20 @@ func corpus() []desc {
 		desc{Op: "life", Mk: "resp", Ops: []lifeop{st(true), {Op: "wrap"}, st(true), {Op: "wrap"}, {Op: "consume", Variant: 0}}},
 		desc{Op: "life", Mk: "resp", Ops: []lifeop{st(false), {Op: "wrap"}, {Op: "release"}}},
 	)
+	// compressed streams dropped before / after the compressor goroutine has finished
+	for _, disc := range []string{"writefail", "close", "reset", "setbody", "release"} {
+		c = append(c, desc{Op: "zlife", Codec: "gzipbody", Discard: disc, Big: true})
+		c = append(c, desc{Op: "zlife", Codec: "gzipbody", Discard: disc})
+		c = append(c, desc{Op: "zlife", Codec: "gzipbody", Discard: disc, GoFirst: true})
+	}
+	c = append(c, desc{Op: "zlife", Codec: "gzipbody", Discard: "writeok"}, desc{Op: "zlife", Codec: "gzipbody", Discard: "writeok", GoFirst: true})
+	for _, codec := range []string{"writegzip", "writedeflate"} {
+		c = append(c, desc{Op: "zlife", Codec: codec, Discard: "writefail", Big: true}, desc{Op: "zlife", Codec: codec, Discard: "writefail"},
+			desc{Op: "zlife", Codec: codec, Discard: "writeok", GoFirst: true})
+	}
+	for _, codec := range []string{"server-gzip", "server-deflate", "server-br", "server-zstd"} {
+		c = append(c, desc{Op: "zlife", Codec: codec, Big: true})
+	}
 	// RequestCtx inside a server
 	for _, early := range []bool{false, true} {
 		c = append(c,
@@ -1269,6 +1516,8 @@ func run(d desc) hlib.Case {
 		return runLife(d)
 	case "ctx":
 		return runCtx(d)
+	case "zlife":
+		return runZLife(d)
 	}
 	panic("bad op " + d.Op)
 }
